@@ -45,35 +45,6 @@ pub mod error {
 ///      "type": "integer",
 ///      "format": "uint8"
 ///    },
-///    "list": {
-///      "type": "array",
-///      "items": {
-///        "type": "integer",
-///        "format": "uint8"
-///      }
-///    },
-///    "pair": {
-///      "oneOf": [
-///        {
-///          "type": "array",
-///          "items": [
-///            {
-///              "type": "boolean"
-///            },
-///            {
-///              "type": "integer",
-///              "maximum": 20.0,
-///              "minimum": 10.0
-///            }
-///          ],
-///          "maxItems": 2,
-///          "minItems": 2
-///        },
-///        {
-///          "type": "null"
-///        }
-///      ]
-///    },
 ///    "span": {
 ///      "type": "array",
 ///      "items": [
@@ -86,15 +57,6 @@ pub mod error {
 ///      ],
 ///      "maxItems": 2,
 ///      "minItems": 2
-///    },
-///    "tags": {
-///      "type": [
-///        "array",
-///        "null"
-///      ],
-///      "items": {
-///        "type": "string"
-///      }
 ///    }
 ///  }
 ///}
@@ -103,14 +65,8 @@ pub mod error {
 #[derive(::serde::Deserialize, ::serde::Serialize, Clone, Debug)]
 pub struct Record {
     pub id: u8,
-    #[serde(default, skip_serializing_if = "::std::vec::Vec::is_empty")]
-    pub list: ::std::vec::Vec<u8>,
-    #[serde(default, skip_serializing_if = "::std::option::Option::is_none")]
-    pub pair: ::std::option::Option<(bool, i64)>,
     #[serde(default, skip_serializing_if = "::std::option::Option::is_none")]
     pub span: ::std::option::Option<(i64, ::std::string::String)>,
-    #[serde(default, skip_serializing_if = "::std::option::Option::is_none")]
-    pub tags: ::std::option::Option<::std::vec::Vec<::std::string::String>>,
 }
 impl ::std::convert::From<&Record> for Record {
     fn from(value: &Record) -> Self {
@@ -127,17 +83,8 @@ pub mod builder {
     #[derive(Clone, Debug)]
     pub struct Record {
         id: ::std::result::Result<u8, ::std::string::String>,
-        list: ::std::result::Result<::std::vec::Vec<u8>, ::std::string::String>,
-        pair: ::std::result::Result<
-            ::std::option::Option<(bool, i64)>,
-            ::std::string::String,
-        >,
         span: ::std::result::Result<
             ::std::option::Option<(i64, ::std::string::String)>,
-            ::std::string::String,
-        >,
-        tags: ::std::result::Result<
-            ::std::option::Option<::std::vec::Vec<::std::string::String>>,
             ::std::string::String,
         >,
     }
@@ -145,10 +92,7 @@ pub mod builder {
         fn default() -> Self {
             Self {
                 id: Err("no value supplied for id".to_string()),
-                list: Ok(Default::default()),
-                pair: Ok(Default::default()),
                 span: Ok(Default::default()),
-                tags: Ok(Default::default()),
             }
         }
     }
@@ -163,26 +107,6 @@ pub mod builder {
                 .map_err(|e| format!("error converting supplied value for id: {}", e));
             self
         }
-        pub fn list<T>(mut self, value: T) -> Self
-        where
-            T: ::std::convert::TryInto<::std::vec::Vec<u8>>,
-            T::Error: ::std::fmt::Display,
-        {
-            self.list = value
-                .try_into()
-                .map_err(|e| format!("error converting supplied value for list: {}", e));
-            self
-        }
-        pub fn pair<T>(mut self, value: T) -> Self
-        where
-            T: ::std::convert::TryInto<::std::option::Option<(bool, i64)>>,
-            T::Error: ::std::fmt::Display,
-        {
-            self.pair = value
-                .try_into()
-                .map_err(|e| format!("error converting supplied value for pair: {}", e));
-            self
-        }
         pub fn span<T>(mut self, value: T) -> Self
         where
             T: ::std::convert::TryInto<
@@ -195,18 +119,6 @@ pub mod builder {
                 .map_err(|e| format!("error converting supplied value for span: {}", e));
             self
         }
-        pub fn tags<T>(mut self, value: T) -> Self
-        where
-            T: ::std::convert::TryInto<
-                ::std::option::Option<::std::vec::Vec<::std::string::String>>,
-            >,
-            T::Error: ::std::fmt::Display,
-        {
-            self.tags = value
-                .try_into()
-                .map_err(|e| format!("error converting supplied value for tags: {}", e));
-            self
-        }
     }
     impl ::std::convert::TryFrom<Record> for super::Record {
         type Error = super::error::ConversionError;
@@ -215,10 +127,7 @@ pub mod builder {
         ) -> ::std::result::Result<Self, super::error::ConversionError> {
             Ok(Self {
                 id: value.id?,
-                list: value.list?,
-                pair: value.pair?,
                 span: value.span?,
-                tags: value.tags?,
             })
         }
     }
@@ -226,10 +135,7 @@ pub mod builder {
         fn from(value: super::Record) -> Self {
             Self {
                 id: Ok(value.id),
-                list: Ok(value.list),
-                pair: Ok(value.pair),
                 span: Ok(value.span),
-                tags: Ok(value.tags),
             }
         }
     }
